@@ -261,6 +261,8 @@ def descriptor_algebra(repo: Repo, rep, P: str):
         rep.ok(f"{P}.R4", f"{rel}:Option.__set__", "for other in self.exclusive_of: option_values[other] = False", "exclusive partners are switched off")
     else:
         rep.violation(f"{P}.R4", f"{rel}:Option.__set__", ss[:240], "mutually exclusive options must be switched off when one is set", f"{rel}:{s.lineno}")
+    setter_per_option(repo, rep, P, s)
+    seeding_rule(repo, rep, P)
     # per option declarations
     for ci, opts in option_classes(repo):
         names = {o.name: o for o in opts}
@@ -296,6 +298,98 @@ def descriptor_algebra(repo: Repo, rep, P: str):
                 dv = int(dv)
             if isinstance(dv, int) and size is not None and not (0 <= dv <= 2**size - 1):
                 rep.violation(f"{P}.R4", con, f"default={d!r} size={size}", "default does not fit the bit field", where)
+
+
+def setter_per_option(repo: Repo, rep, P: str, s: ast.FunctionDef):
+    """Instantiate Option.__set__ with each option's constants: what is stored as a function of the assigned value."""
+    opt = repo.cls("Option", module="rv.option")
+    rel = opt.file.rel
+    vparam = [a.arg for a in s.args.args if a.arg not in ("self",)][1]
+    # statements up to (and excluding) the store
+    pre = []
+    for st in stmts_of(s):
+        if isinstance(st, ast.Assign) and any(isinstance(t, ast.Subscript) and "option_values" in norm(t) for t in st.targets):
+            break
+        pre.append(st)
+    seen = set()
+    n = 0
+    for ci, opts in option_classes(repo):
+        for o in opts:
+            consts = {"min": o.get("min"), "max": o.get("max"), "size": _int(o, "size"), "inverted": bool(o.get("inverted")),
+                      "name": o.name, "exclusive_of": list(o.get("exclusive_of") or [])}
+            key = (consts["min"], consts["max"], consts["size"], consts["inverted"])
+            if key in seen:
+                continue
+            seen.add(key)
+            n += 1
+            try:
+                body = [_Inst("self", consts).visit(copy.deepcopy(x)) for x in pre]
+                for x in body:
+                    ast.fix_missing_locations(x)
+                flat = _static_flatten(repo, body)
+            except Unsupported as e:
+                rep.inconclusive(f"{P}.R4", f"{rel}:Option.__set__", f"{o.name}: {e}", "setter not reducible for this option", f"{rel}:{s.lineno}")
+                continue
+            steps = [norm(x).replace(" ", "") for x in flat if isinstance(x, ast.Assign) and norm(x.targets[0]) == vparam]
+            others = [norm(x) for x in flat if not (isinstance(x, ast.Assign) and norm(x.targets[0]) == vparam)]
+            size, mn, mx, inv = consts["size"], consts["min"], consts["max"], consts["inverted"]
+            if mn is not None and mx is not None:
+                want = [[f"{vparam}=max({mn},min({mx},{vparam}))"]]
+                what = f"clamped into [{mn}, {mx}]"
+            elif size == 1:
+                want = [[f"{vparam}=bool({vparam})"] + ([f"{vparam}=not{vparam}"] if inv else [])]
+                what = "bool()" + (" then negated (stored form of an inverted flag)" if inv else "")
+            else:
+                want = [[]]
+                what = "stored unchanged"
+            text = f"[size={size} min={mn} max={mx} inverted={inv}] e.g. {ci.name}.{o.name}: {'; '.join(steps) or '(no transformation)'}"
+            ok = steps in want
+            if not ok and mn is None and size and size > 1 and len(steps) == 1:
+                # a clamp to the full field [0, 2**size − 1] is harmless
+                import re
+                m = re.match(rf"^{vparam}=max\(0,min\((.+),{vparam}\)\)$", steps[0])
+                if m:
+                    try:
+                        hi = repo.fold(ast.parse(m.group(1), mode="eval").body)
+                        ok = hi == 2 ** size - 1
+                        if not ok:
+                            rep.violation(f"{P}.R4", f"{rel}:Option.__set__", text,
+                                          f"a {size}-bit option is clamped to [0, {hi}] although its field holds 0..{2 ** size - 1}: "
+                                          f"the representable value(s) above {hi} cannot be set", f"{rel}:{s.lineno}")
+                            continue
+                    except (NotConst, SyntaxError):
+                        pass
+            if ok and not others:
+                rep.ok(f"{P}.R4", f"{rel}:Option.__set__", text, what)
+            else:
+                rep.violation(f"{P}.R4", f"{rel}:Option.__set__", text + (f"; also: {others[:2]}" if others else ""),
+                              f"for this kind of option the assigned value must be {what}; the setter does something else before storing it",
+                              f"{rel}:{s.lineno}")
+    rep.count("option_setter_kinds", n, 4)
+
+
+def seeding_rule(repo: Repo, rep, P: str):
+    """Module.__init__ seeds every option through its descriptor (so inverted defaults are stored inverted)."""
+    mod = repo.cls("Module", module="rv.modules.module")
+    init = repo.own_method(mod, "__init__")
+    rel = mod.file.rel
+    loops = [st for st in init.body if isinstance(st, ast.For) and norm(st.iter) in ("self.options.items()", "self.options.values()", "self.options")]
+    direct = [n for st in loops for n in ast.walk(st) if isinstance(n, ast.Assign)
+              and any(isinstance(t, ast.Subscript) and norm(t.value) == "self.option_values" for t in n.targets)]
+    good = [st for st in loops if norm(ast.Module(body=st.body, type_ignores=[])).replace(" ", "").replace("\n", ";")
+            in ("v=kw.get(k,option.default);setattr(self,k,v)", "setattr(self,k,kw.get(k,option.default))")]
+    src = norm(init)
+    if direct:
+        rep.violation(f"{P}.R4", f"{rel}:Module.__init__", norm(direct[0]),
+                      "option defaults are written straight into option_values, bypassing the Option descriptor: the default of an "
+                      "inverted option is stored un-inverted (it reads back as the opposite of its declared default) and bounds/"
+                      "exclusivity are not applied", f"{rel}:{direct[0].lineno}")
+    elif good and "self.option_values = {}" in src:
+        rep.ok(f"{P}.R4", f"{rel}:Module.__init__", "for k, option in self.options.items(): setattr(self, k, kw.get(k, option.default))",
+               "defaults and keywords go through the descriptor")
+    else:
+        rep.violation(f"{P}.R4", f"{rel}:Module.__init__", "option seeding loop",
+                      "every option must be seeded with setattr(self, name, keyword-or-default) so that the descriptor applies", f"{rel}:{init.lineno}")
 
 
 # ------------------------------------------------------------------------------------ R5
